@@ -83,7 +83,7 @@ PROPS = {
         rule="depth limits D x every opener sequence over {[, {\"k\":} of length 0..D+2 (all 2^k shapes up to k=10, three regular patterns beyond) x innermost in "
              "{1, \"\", [], {}, empty container} x {with, without a shallow sibling first} x {default, strict}; one shot (NUL-terminated) and, for small D, the whole partition "
              "lattice; refused D in {0,-1,INT_MIN}; 20000-deep unclosed hostile input one-shot and bytewise; non-trivial = document whose deepest enclosure is D-1 or beyond",
-        bound=dict(quick="D in 1..8, lattice for D<=4", thorough="D in 1..34 (contains the default 32), lattice for D<=6"),
+        bound=dict(quick="D in 1..8, lattice for D<=4", thorough="D in 1..34 (contains the default 32), lattice for D<=8"),
         states_stat="cases", transitions_stat="calls",
         technique="exhaustive enumeration of nesting shapes x depth limits on the real tokener (ASan build), enclosure-depth reference reader as oracle",
         claim="acceptance, error kind, error position and peak allocation were compared with an enclosure-depth reference for every shape at, below and beyond every limit; "
@@ -99,7 +99,7 @@ PROPS = {
              "subnormals, infinities, NaN) x 5 accessors; every string over {space,tab,-,+,0,1,9,.,e,x} up to the length bound plus decimal spellings of the lattice; "
              "one int node under set_int64/set_uint64/set_int/int_inc: all (value, operation) pairs and BFS over reachable values merged on the exact value; "
              "non-trivial = distinct case description",
-        bound=dict(quick="strings <= 4 bytes; mutation depth 3", thorough="strings <= 5 bytes; mutation depth 4"),
+        bound=dict(quick="strings <= 4 bytes; mutation depth 3", thorough="strings <= 6 bytes; mutation depth 5"),
         states_stat="cases", transitions_stat="calls",
         technique="exhaustive enumeration of boundary lattices and explicit-state search of an integer node on the real accessors (UBSan build), exact 128-bit integer reference",
         claim="each accessor result was compared with an exact-integer / exact-double-comparison reference for every lattice point and every short string; every set/inc history "
@@ -129,7 +129,7 @@ PROPS = {
         rule="BFS over histories on arrays created with capacity 0,1,2,default: add, put_idx/insert_idx at {0,len-1,len,len+1,len+3,SIZE_MAX-1,SIZE_MAX} with an element or NULL, "
              "del_idx(i,n) with i in {0,len-1,len,len+1,SIZE_MAX} and n in {0,1,len-i,len-i+1,SIZE_MAX}, shrink(0,1,len); get_idx over 0..len+2 after each step; states merged on "
              "(length, capacity, null pattern); plus sort/bsearch on every array over {0,1,2} up to the length bound; non-trivial = distinct state / distinct sorted input",
-        bound=dict(quick="depth 6 (creation + 5 operations), length capped at 13; sort inputs <= 6 elements", thorough="depth 8; sort inputs <= 7 elements"),
+        bound=dict(quick="depth 6 (creation + 5 operations), length capped at 13; sort inputs <= 6 elements", thorough="depth 10; sort inputs <= 7 elements"),
         states_stat="states", transitions_stat="transitions",
         technique="explicit-state BFS of operation histories on the real array (ASan build, poison-filled allocator), list reference model and exact release-set oracle",
         claim="after every transition length, element identity at every index, NULL past the end, return code and the exact set of elements destroyed equal a plain list model; "
@@ -179,7 +179,7 @@ PROPS = {
              "judged against value-model equality, symmetry/transitivity of the computed relation by union-find closure; deep copy of every member and of parsed trees with retained "
              "number text: equal, same typed dump, byte-identical under all 64 flag sets, disjoint node sets, mutation of every node position in either tree, destruction of the source; "
              "non-trivial = distinct family member",
-        bound=dict(quick="children from 8 leaves / 7 depth-1 values", thorough="children from 12 leaves / 12 depth-1 values"),
+        bound=dict(quick="children from 8 leaves / 7 depth-1 values (416 trees)", thorough="children from all 28 leaves / 20 depth-1 values (3 716 trees, 13.8e6 ordered pairs)"),
         states_stat="cases", transitions_stat="calls",
         technique="exhaustive enumeration of all ordered pairs of a complete tree family on the real json_object_equal / deep_copy (ASan build), value-model reference",
         claim="equality was evaluated on every ordered pair of the family and equals value-model equality, the computed relation is closed (reflexive, symmetric, transitive); every member "
@@ -227,7 +227,7 @@ PROPS = {
         rule="every tree shape with up to the node bound over kinds {int leaf, null, array, object} (empty containers included); the callback is a choice point returning one of "
              "CONTINUE, SKIP, POP, STOP, ERROR, 42: every assignment of codes to calls, enumerated by stateless DFS over choice vectors (the traversal determines the vector length), "
              "with at most k non-CONTINUE answers for the larger trees; non-trivial = distinct tree",
-        bound=dict(quick="trees <= 5 nodes; all assignments for <= 3 nodes, <= 3 deviations beyond", thorough="trees <= 6 nodes; all assignments for <= 4 nodes, <= 4 deviations beyond"),
+        bound=dict(quick="trees <= 5 nodes; all assignments for <= 3 nodes, <= 3 deviations beyond", thorough="trees <= 7 nodes; all assignments for <= 4 nodes, <= 4 deviations beyond"),
         states_stat="cases", transitions_stat="runs",
         technique="stateless exhaustive exploration of callback return-code assignments (choice points) on the real visitor, reference traversal as oracle",
         claim="for every tree shape and every assignment of return codes within the bound, the exact sequence of calls (node, first/second visit, parent, key or index) and the final "
@@ -275,7 +275,7 @@ PROPS = {
              "an invalid, a bare-number and an empty text x {from_fd, from_fd_ex(3), from_fd_ex(32), from_file}; every read()/write() is a choice point: for texts <= 12 bytes every "
              "transfer size 1..n and three errno values (EIO, EINTR, ENOSPC) at every call (all compositions), for larger ones sizes {all,1,2,n/2,n-1} and the three errors with a bounded number of deviations; "
              "open() failure, NULL object; non-trivial = distinct (operation, document, variant)",
-        bound=dict(quick="<= 2 deviations on large documents", thorough="<= 3 deviations on large documents"),
+        bound=dict(quick="<= 2 deviations on large documents", thorough="<= 4 deviations on large documents"),
         states_stat="cases", transitions_stat="schedules",
         technique="exhaustive enumeration of per-call transfer sizes and injected errors (choice points at read/write/open) on the real file I/O helpers (ASan build)",
         claim="for every explored schedule the bytes accepted by write() concatenate to exactly the serialization (or the call reports failure with a message), and reading yields the same "
@@ -310,7 +310,7 @@ PROPS = {
              "and x (doubles m*10^e and binade samples serialized under PLAIN, NOZERO, PRETTY|SPACED), compared with the C-locale result; around every parse_ex/serialize call the thread "
              "locale handle, the global LC_NUMERIC name, printf's decimal separator and the number of live locale objects are compared; one text per parser outcome class x 8 flag sets "
              "x {with NUL, without, invalid length} x {duplocale fails, newlocale fails}; non-trivial = distinct input text",
-        bound=dict(quick="number spellings <= 5 bytes", thorough="number spellings <= 6 bytes, denser double family"),
+        bound=dict(quick="number spellings <= 5 bytes", thorough="number spellings <= 7 bytes, denser double family"),
         states_stat="cases", transitions_stat="calls",
         technique="exhaustive enumeration of locale installations x number texts x parser outcome classes on the real code, differential oracle against the C-locale run plus locale-state probes",
         claim="under every locale installation every enumerated text parses to the same bits and every double serializes to the same bytes as in the C locale, and every return path of the "
@@ -328,7 +328,7 @@ PROPS = {
              "(5) threads on disjoint trees; every interleaving of the 2-3 real threads at shared-memory-access granularity with at most p preemptions (stateless DFS with prefix replay, one process "
              "per execution); oracle per schedule: destroyed exactly once, 'freed' reported exactly once, no access inside a freed block, equal hashes in all threads at all times, plus a "
              "vector-clock happens-before race monitor; then the same bodies free-running under the real ThreadSanitizer runtime; non-trivial = distinct schedule with >= 1 preemption",
-        bound=dict(quick="2 threads: 2 preemptions; 3 threads: 1 preemption; 60 free runs per configuration", thorough="2 threads: 3 preemptions; 3 threads: 2 preemptions; 300 free runs per configuration"),
+        bound=dict(quick="2 threads: 2 preemptions; 3 threads: 1 preemption; 60 free runs per configuration", thorough="2 threads: 4 preemptions (3 for the child variant); 3 threads: 2-3 preemptions; 300 free runs per configuration"),
         states_stat="schedules", transitions_stat="scheduling_points",
         technique="stateless model checking of the real threaded code: preemption-bounded exhaustive schedule exploration over tsan-pass-instrumented accesses with own scheduler and HB race monitor; real TSan free run as cross-check",
         claim="every schedule within the preemption bound was executed on the real objects: no lost reference-count update, exactly one destruction after the last release, a single published hash "
